@@ -62,6 +62,16 @@ CHECKS['C08'] = dict(cat='other', engine='symnp',
          'S-path: matplotlib Path.contains_points modelled by a crossing-number test (real routine on replay); chunk limit '
          'clamped to 2 for the projected ROI')
 
+CHECKS['C04'] = dict(cat='other', engine='symnp',
+    technique='symbolic execution of the real view plumbing on arrays of SMT terms + SMT equivalence, views enumerated by the solver',
+    text='For every attribute kind (stored, derived, pixel, world, categorical, linked, derived-of-pixel) and every selection kind '
+         '(inequalities, range, ROI on stored/pixel/world attributes incl. the pixel-space shortcut, slice, mask on same and foreign '
+         'grid, element, category, categorical ROI, and/multi-or/invert) and every view of the family (None, Ellipsis, all tuples of '
+         'listed ints/positive-step slices incl. negative, overshooting and empty ones, shorter tuples, integer index arrays, '
+         'boolean mask) the restricted result is proved equal, element by element over symbolic contents, to the full result '
+         'indexed by the view; IndexedData values/masks equal the parent slice, also after indices are reassigned.', ref='5/C04',
+    note=NOTE_SYM + '; affine coordinates with listed matrices (symbolic matrices are C15); categorical values are concrete strings')
+
 NOT_YET = {}
 
 NOT_APPLICABLE = {
